@@ -422,7 +422,7 @@ class MetaSpec_key_signature(MetaSpec):
 class MetaSpec_sequencer_specific(MetaSpec):
     type_byte = 0x7f
     attributes = ['data']
-    defaults = [[]]
+    defaults = [()]
 
     def decode(self, message, data):
         message.data = tuple(data)
@@ -531,6 +531,10 @@ class MetaMessage(BaseMessage):
             if name == 'time':
                 check_time(value)
             else:
+                if name == 'data':
+                    # Store a tuple (like UnknownMetaMessage does) so
+                    # that the message stays hashable when frozen.
+                    value = tuple(value)
                 spec.check(name, value)
             self_vars[name] = value
 
